@@ -131,6 +131,7 @@ func (f *fakeCrdCache) GetReplicas(gvr schema.GroupVersionResource, namespace, n
 	f.w.crCalls++
 	for _, k := range f.w.CrFail {
 		if k == f.w.crCalls {
+			f.w.crFailed++
 			// the custom resource could not be read (not "not found"): nothing is known about the app
 			return 0, apierrors.NewInternalError(fmt.Errorf("injected: replicas of %s/%s unreadable", namespace, name))
 		}
@@ -229,6 +230,7 @@ type World struct {
 	fault        *Fault
 	CrFail       []int // 1-based indexes of custom-resource replica lookups that fail (not with NotFound)
 	crCalls      int
+	crFailed     int // number of injected lookup failures so far
 	faultHit     bool
 	faultHitEver bool
 	crashed      bool
